@@ -65,7 +65,7 @@ def parseKey? (s : String) : Option (Except Err KeyOrAddress) :=
   | ["a", t] => do some (.ok (.text (← parseStr? t)))
   | _ => none
 
-def handle : Handler := fun op args =>
+def handleBase : Handler := fun op args =>
   match op, args with
   | "c17_b64dec", [b] => do
     match a2bBase64 (← parseHex? b) with
@@ -108,5 +108,21 @@ def handle : Handler := fun op args =>
     | .ok (m, a, s) => some s!"ok {showStr m} {showStr a} {showStr s}"
     | .error e => some ("err " ++ e.tag)
   | _, _ => none
+
+/-- `msg_history cfg order steps`: the implementation runs the steps one after the other on shared objects in a new
+process that creates the networks in `order`; the model is a function of each step's arguments, so it answers step by
+step.  A step is an op line with `~` for the spaces; steps are separated by `;`. -/
+def handle : Handler := fun op args =>
+  match op, args with
+  | "msg_history", [_, _, steps] =>
+    let answers := (steps.splitOn ";").map fun st =>
+      match (st.replace "~" " ").splitOn " " with
+      | [] => "bad-op"
+      | o :: as =>
+        match handleBase o as with
+        | some r => r.replace " " "~"
+        | none => "bad-op"
+    if answers.contains "bad-op" then none else some ("ok " ++ ";".intercalate answers)
+  | _, _ => handleBase op args
 
 end Pycoin.Driver.C17
